@@ -580,7 +580,7 @@ class QConv2DTranspose(Conv2DTranspose, PrunableLayer):
     else:
       quantized_kernel = self.kernel
 
-    output_shape_tensor = array_ops.stack(output_shape)
+    output_shape_tensor = tf.stack(output_shape)
     outputs = tf.keras.backend.conv2d_transpose(
         inputs,
         quantized_kernel,
